@@ -172,6 +172,24 @@ def check_packet(run, case):
         ok = False
         if not excused(run, regs, why, exc, case):
             run.violation('roundtrip:%s:%s:%s' % (framing, k, why[0]), case, 'single=%s: %s (packet %s)' % (single, why[1], pkt.hex()[:100]))
+    # ---- receivers that accept every unit: the single-context server's call (units [0], single=True) and a unit list holding
+    # 0 or 255; the frame is for SOME unit (any of the 256), it must be delivered with that unit id
+    if ok and not regs and framing != 'tls':
+        for units, single in (([0], True), ([0], False), ([0xFF], False), (0, None)):
+            got = []
+            run.count('accept_all_roundtrips')
+            try:
+                if single is None:
+                    new_framer(framing, d).processIncomingPacket(pkt, got.append, units)
+                else:
+                    new_framer(framing, d).processIncomingPacket(pkt, got.append, units, single=single)
+            except Exception as e:  # noqa
+                got = [e]
+            if len(got) != 1 or isinstance(got[0], Exception) or type(got[0]) is not type(msg) or got[0].unit_id != uid:
+                ok = False
+                run.violation('roundtrip-accept-all:%s:%s' % (framing, k), case, 'receiver for units %r single=%r given a frame for unit %d delivered %r (packet %s)'
+                              % (units, single, uid, [getattr(x, 'unit_id', x) for x in got], pkt.hex()[:100]))
+                break
     return ok
 
 
@@ -266,6 +284,27 @@ def run(run):
                 case = {'framing': framing, 'm': m, 'uid': uid, 'tid': uid * 257, 'pid': 0}
                 res = check_packet(run, case)
                 run.case(h64(repr(case)), True, sample=dict(case, verdict='held' if res else 'differs'), sample_class=('uid-sweep', framing))
+    # payloads that look like the framing's own structures: an MBAP header inside the PDU (protocol id 0 and a length that fits the
+    # rest - on TLS, which carries the bare PDU, that is where a header would be), delimiter and terminator characters as register values
+    if run.shard in (None, 0):
+        mimics = []
+        for n in range(2, 40):
+            regs = [0, 2 * n - 4] + [r.randrange(65536) for _ in range(n - 2)]
+            for fc in (3, 4, 23):
+                mimics.append({'dir': RSP, 'fc': fc, 'registers': list(regs)})
+        for ne in range(0, 12):
+            mimics.append({'dir': RSP, 'fc': 12, 'status': 0, 'event_count': 2 + ne, 'message_count': r.randrange(65536), 'events': [r.randrange(256) for _ in range(ne)]})
+        for w in (0x3A30, 0x0D0A, 0x7B7D, 0x7D7B, 0x3A3A):
+            mimics.append({'dir': RSP, 'fc': 3, 'registers': [w, w, w]})
+            mimics.append({'dir': REQ, 'fc': 16, 'address': w, 'registers': [w, w]})
+        for m in mimics:
+            for framing in ADU.FRAMINGS:
+                case = {'framing': framing, 'm': m, 'uid': r.choice([1, 17, 247]), 'tid': r.randrange(65536), 'pid': 0}
+                res = check_packet(run, case)
+                if res is None:
+                    continue
+                run.count('mimic_payload_packets')
+                run.case(h64(repr(case)), True, sample=dict(case, verdict='held' if res else 'differs'), sample_class=('mimic', framing))
     floor = 300 if run.shard is None else 20
     run.floor('min packets per (framing, direction)', min(run.counters.get('pkt:%s:%s' % (f, d), 0) for f in ADU.FRAMINGS for d in (REQ, RSP)), floor)
     run.floor('checksum comparisons', run.counters.get('checksum_comparisons', 0), 10000 if run.shard is None else 1000)
